@@ -343,7 +343,7 @@ class FixedArray
                 boost::python::throw_error_already_set();
             }
             // e can be -1 if the iteration is backwards with a negative slice operator [::-n] (n > 0).
-            if (s < 0 || e < -1 || sl < 0) {
+            if (s < -1 || e < -1 || sl < 0) {
                 throw std::domain_error("Slice extraction produced invalid start, end, or length indices");
             }
             start = s;
